@@ -39,6 +39,11 @@ pub enum Amf0SerializationError {
     #[error("String length greater than 65,535")]
     NormalStringTooLong,
 
+    /// Object properties must have a non-empty name, as an empty name is how the end of
+    /// an object is encoded (and thus can't be read back as a property).
+    #[error("Object property with an empty name")]
+    EmptyObjectPropertyName,
+
     /// An I/O error occurred while writing to the output buffer.
     #[error("Failed to write to byte buffer")]
     BufferWriteError(#[from] io::Error),
